@@ -511,3 +511,335 @@ Proof.
   intros HI Hm Hno Hcl. eapply inv_set_sub; eauto.
   intros t tp Hn. eapply closed_ok_set_sub_other; eauto. destruct HI as (_ & _ & _ & HD & _). auto.
 Qed.
+
+Lemma closed_ok_idle c id o todo t tp s' :
+  c_main c = Some (id, o :: todo, SIdle) -> closed_ok c t tp -> closed_ok (set_sub c s') t tp.
+Proof.
+  intros Hm Hc Hcl. destruct (Hc Hcl) as [Hce Hor]. split; [exact Hce|].
+  pose proof (main_head _ _ _ _ _ Hm) as Hh. rewrite Hh in Hor.
+  right. destruct Hor as [Hx|(H1 & H2 & [H3|Hx])]; try discriminate. repeat split; auto.
+Qed.
+
+Lemma inv_ice_stop_call c id t todo tp :
+  inv c -> c_main c = Some (id, OIceStop t :: todo, SIdle) -> nth_error (c_tps c) t = Some tp ->
+  i_state tp <> IClosed ->
+  inv (set_sub (set_tp c t (mkTp (d_state tp) (d_pump tp) (d_ref tp) IClosed (i_mon tp) (i_starting tp)
+                                 (i_cclosed tp) (i_consent tp) true)) SIceClosing).
+Proof.
+  intros HI Hm Hn Hnc. pose proof HI as (HA & HB & HC & HD & HE).
+  set (tp' := mkTp (d_state tp) (d_pump tp) (d_ref tp) IClosed (i_mon tp) (i_starting tp)
+                   (i_cclosed tp) (i_consent tp) true).
+  set (c1 := set_tp c t tp').
+  assert (Hm1 : c_main c1 = Some (id, OIceStop t :: todo, SIdle)) by exact Hm.
+  assert (Hval : forall o, op_valid c o -> op_valid c1 o).
+  { intros o. apply op_valid_ext; cbn [c_trx c_tps c_sctp set_tp c1]; try tauto.
+    intros i. apply nth_error_upd_none. }
+  unfold set_sub. rewrite Hm1.
+  split; [exact HA|split; [|split; [|split]]].
+  - unfold fut_ok in *. rewrite Hm in HB. cbn. exact HB.
+  - unfold main_ok in *. rewrite Hm in HC. cbn [c_main set_main]. destruct HC as [[Hv _] Hf].
+    split; [split; [apply (Hval _ Hv)|]|eapply Forall_impl; [|exact Hf]; exact Hval].
+    cbn [c_tps set_main c1 set_tp]. intros tp0. rewrite nth_error_upd_same with (y := tp) by exact Hn.
+    intros H; injection H as <-. reflexivity.
+  - intros t1 tp1. cbn [c_tps set_main c1 set_tp]. rewrite nth_error_upd.
+    destruct (Nat.eqb_spec t1 t) as [->|Hne].
+    + rewrite Hn. intros H; injection H as <-. intros _. split; [reflexivity|]. left. reflexivity.
+    + intros Hn1 Hcl. destruct (HD t1 tp1 Hn1 Hcl) as [Hce Hor]. split; [exact Hce|].
+      pose proof (main_head _ _ _ _ _ Hm) as Hh. rewrite Hh in Hor.
+      right. destruct Hor as [Hx|(H1 & H2 & [H3|Hx])]; try discriminate. repeat split; auto.
+  - intros Hc. destruct (HE Hc) as [Hs Hp]. split; [exact Hs|]. intros o Ho.
+    change (plan (set_main c1 (Some (id, OIceStop t :: todo, SIceClosing)))) with (plan c) in Ho.
+    destruct (Hp o Ho) as [Hin|Hpo].
+    + left. unfold todo_of in *. rewrite Hm in Hin. exact Hin.
+    + destruct o; try (right; exact Hpo).
+      destruct (Nat.eqb_spec t0 t) as [->|Hne].
+      * exfalso. destruct (Hpo tp Hn) as (Hq & _). contradiction.
+      * right. cbn [post c_tps set_main c1 set_tp]. intros tp0. rewrite nth_error_upd_other by exact Hne.
+        apply Hpo.
+Qed.
+
+Lemma exited_set_eq t : exited_set t = true -> t = TExited.
+Proof. destruct t; cbn; intros H; try discriminate; reflexivity. Qed.
+
+(* what a returning stop() has achieved *)
+Lemma ret_post c id o todo s :
+  inv c -> c_main c = Some (id, o :: todo, s) -> stop_ret c o s = true -> post c o.
+Proof.
+  intros (HA & HB & HC & HD & HE) Hm Hr. unfold main_ok in HC. rewrite Hm in HC.
+  destruct HC as [[Hv Hp] _]. pose proof (main_head _ _ _ _ _ Hm) as Hh.
+  destruct o; cbn [post].
+  - intros x Hn. specialize (Hp x Hn). destruct (HA _ _ Hn) as ((U1 & U2) & _).
+    unfold stop_ret in Hr. destruct s; try discriminate.
+    + destruct Hp as [Hs He]. destruct (U2 Hs) as [Hr1 Hd]. unfold rquiet, tquiet. auto.
+    + rewrite Hn in Hr. apply exited_set_eq in Hr. destruct Hp as (_ & Hd & He). unfold rquiet, tquiet. auto.
+  - intros x Hn. specialize (Hp x Hn). destruct (HA _ _ Hn) as ((U1 & U2) & _).
+    unfold stop_ret in Hr. destruct s; try discriminate.
+    + destruct (U1 Hp) as [H1 H2]. unfold squiet, tquiet. auto.
+    + rewrite Hn in Hr. apply andb_prop in Hr. destruct Hr as [H1 H2].
+      apply exited_set_eq in H1, H2. unfold squiet, tquiet. auto.
+  - intros sc Hn. specialize (Hp sc Hn). unfold stop_ret in Hr. destruct s; try discriminate. exact Hp.
+  - exact I.
+  - intros tp Hn. specialize (Hp tp Hn). pose proof (HD t tp Hn) as Hc. unfold closed_ok in Hc. rewrite Hh in Hc.
+    unfold stop_ret in Hr. destruct s; try discriminate.
+    + cbn in Hp. destruct (Hc Hp) as [Hce Hor].
+      destruct Hor as [Hx|(H1 & H2 & [H3|Hx])]; try discriminate. unfold iquiet. auto.
+    + rewrite Hn in Hr. destruct Hp as [Hp1 Hp2]. destruct (Hc Hp1) as [Hce Hor].
+      destruct (i_mon tp) eqn:Emon; try discriminate.
+      destruct Hor as [Hx|(H1 & H2 & _)]; try discriminate. unfold iquiet. rewrite Emon. repeat split; auto; discriminate.
+Qed.
+
+Lemma inv_pop c id o todo s :
+  inv c -> c_main c = Some (id, o :: todo, s) -> stop_ret c o s = true ->
+  inv (set_main c (Some (id, todo, SIdle))).
+Proof.
+  intros HI Hm Hr. pose proof (ret_post _ _ _ _ _ HI Hm Hr) as Hpost.
+  destruct HI as (HA & HB & HC & HD & HE). pose proof (main_head _ _ _ _ _ Hm) as Hh.
+  split; [exact HA|split; [|split; [|split]]].
+  - unfold fut_ok in *. rewrite Hm in HB. exact HB.
+  - unfold main_ok in *. rewrite Hm in HC. cbn [c_main set_main]. destruct HC as [_ Hf].
+    destruct todo as [|o2 todo]; [reflexivity|]. inversion Hf; subst. split; [|assumption].
+    split; [assumption|]. destruct o2; cbn; auto.
+  - intros t tp Hn Hcl. cbn [c_tps set_main] in Hn. destruct (HD t tp Hn Hcl) as [Hce Hor]. split; [exact Hce|]. right.
+    rewrite Hh in Hor. destruct Hor as [Hx|(H1 & H2 & [H3|Hx])].
+    + injection Hx as -> ->. cbn in Hr. discriminate.
+    + repeat split; auto.
+    + injection Hx as -> ->. cbn in Hr. rewrite Hn in Hr.
+      destruct (i_mon tp) eqn:Emon; try discriminate. repeat split; auto. left. discriminate.
+  - intros Hc. destruct (HE Hc) as [Hs Hp]. split; [exact Hs|]. intros o0 Ho.
+    change (plan (set_main c (Some (id, todo, SIdle)))) with (plan c) in Ho.
+    destruct (Hp o0 Ho) as [Hin|Hpo]; [|right; exact Hpo].
+    unfold todo_of in Hin. rewrite Hm in Hin. destruct Hin as [<-|Hin]; [right; exact Hpost|left; exact Hin].
+Qed.
+
+Lemma inv_ice_conn_closed c id t todo tp :
+  inv c -> c_main c = Some (id, OIceStop t :: todo, SIceClosing) -> nth_error (c_tps c) t = Some tp ->
+  inv (set_sub (set_tp c t (mkTp (d_state tp) (d_pump tp) (d_ref tp) (i_state tp) (i_mon tp) (i_starting tp)
+                                 true false (i_candend tp)))
+               (match i_mon tp with MNone => SDone | _ => SWaitMon end)).
+Proof.
+  intros HI Hm Hn. pose proof HI as (HA & HB & HC & HD & HE).
+  set (tp' := mkTp (d_state tp) (d_pump tp) (d_ref tp) (i_state tp) (i_mon tp) (i_starting tp)
+                   true false (i_candend tp)).
+  set (s' := match i_mon tp with MNone => SDone | _ => SWaitMon end).
+  set (c1 := set_tp c t tp').
+  assert (Hm1 : c_main c1 = Some (id, OIceStop t :: todo, SIceClosing)) by exact Hm.
+  pose proof (main_head _ _ _ _ _ Hm) as Hh.
+  assert (Hcl : i_state tp = IClosed).
+  { unfold main_ok in HC. rewrite Hm in HC. destruct HC as [[_ Hp] _]. exact (Hp tp Hn). }
+  assert (Hval : forall o, op_valid c o -> op_valid c1 o).
+  { intros o. apply op_valid_ext; cbn [c_trx c_tps c_sctp set_tp c1]; try tauto.
+    intros i. apply nth_error_upd_none. }
+  unfold set_sub. rewrite Hm1.
+  split; [exact HA|split; [|split; [|split]]].
+  - unfold fut_ok in *. rewrite Hm in HB. cbn. exact HB.
+  - unfold main_ok in *. rewrite Hm in HC. cbn [c_main set_main]. destruct HC as [[Hv _] Hf].
+    split; [split; [apply (Hval _ Hv)|]|eapply Forall_impl; [|exact Hf]; exact Hval].
+    cbn [c_tps set_main c1 set_tp]. intros tp0. rewrite nth_error_upd_same with (y := tp) by exact Hn.
+    intros H; injection H as <-. unfold s'. destruct (i_mon tp) eqn:Emon; cbn; rewrite ?Emon; auto; split; auto; discriminate.
+  - intros t1 tp1. cbn [c_tps set_main c1 set_tp]. rewrite nth_error_upd.
+    destruct (Nat.eqb_spec t1 t) as [->|Hne].
+    + rewrite Hn. intros H; injection H as <-. intros _.
+      destruct (HD t tp Hn Hcl) as [Hce _]. split; [exact Hce|]. right. cbn.
+      repeat split. unfold head, s'. cbn. destruct (i_mon tp); [left; discriminate|right; reflexivity|left; discriminate].
+    + intros Hn1 Hc1. destruct (HD t1 tp1 Hn1 Hc1) as [Hce Hor]. split; [exact Hce|].
+      rewrite Hh in Hor.
+      right. destruct Hor as [Hx|(H1 & H2 & [H3|Hx])]; try discriminate.
+      * injection Hx as Hx. congruence.
+      * repeat split; auto.
+  - intros Hc. destruct (HE Hc) as [Hs Hp]. split; [exact Hs|]. intros o Ho.
+    change (plan (set_main c1 (Some (id, OIceStop t :: todo, s')))) with (plan c) in Ho.
+    destruct (Hp o Ho) as [Hin|Hpo].
+    + left. unfold todo_of in *. rewrite Hm in Hin. exact Hin.
+    + right. destruct o; try exact Hpo.
+      cbn [post c_tps set_main c1 set_tp]. intros tp0. rewrite nth_error_upd.
+      destruct (Nat.eqb_spec t0 t) as [->|Hne]; [|apply Hpo].
+      rewrite Hn. intros H; injection H as <-. destruct (Hpo tp Hn) as (Q1 & Q2 & Q3 & Q4 & Q5).
+      unfold iquiet. cbn. auto.
+Qed.
+
+(* ------------------------------------------------------------------ every step preserves the invariant *)
+Lemma step_inv c e c' : inv c -> wf_tp c -> step true c e = Some c' -> inv c'.
+Proof.
+  intros HI HW HS. destruct e; cbn [step] in HS.
+  - (* EIceStart *) inv_step HS; eapply inv_set_tp; eauto; tpc.
+  - (* EIceStartRet *) inv_step HS; eapply inv_set_tp; eauto; destruct (i_state t0) eqn:Es, ok; tpc.
+  - (* EDtlsStart *) inv_step HS; eapply inv_set_tp; eauto; tpc.
+  - (* EDtlsStartRet *) inv_step HS; eapply inv_set_tp; eauto; tpc.
+  - (* ESend *) inv_step HS; auto. eapply inv_set_trx; eauto.
+    apply andb_prop in E1. destruct E1 as [_ Ho]. cbn in Ho. destruct (open_main _ HI Ho) as [Hm Hc].
+    destruct HI as (HA & _). destruct (HA _ _ E) as ((U1 & U2) & S1 & R1 & F1 & F2 & F3 & G1).
+    unfold trx_compat, with_s. cbn. repeat split; auto; try congruence; try discriminate.
+    all: try (intros s Hh; exfalso; eapply head_none; eauto).
+    all: cbn in *; intuition (try congruence).
+  - (* EReceive *) inv_step HS; auto. eapply inv_set_trx; eauto.
+    apply andb_prop in E1. destruct E1 as [_ Ho]. cbn in Ho. destruct (open_main _ HI Ho) as [Hm Hc].
+    destruct HI as (HA & _). destruct (HA _ _ E) as ((U1 & U2) & S1 & R1 & F1 & F2 & F3 & G1).
+    unfold trx_compat, with_r. cbn. repeat split; auto; try congruence; try discriminate.
+    all: try (intros s Hh; exfalso; eapply head_none; eauto).
+    all: cbn in *; intuition (try congruence).
+  - (* ESctpStart *)
+    inv_step HS; auto. eapply inv_set_sctp; eauto.
+    all: apply andb_prop in E1; destruct E1 as [_ Ho]; cbn in Ho; destruct (open_main _ HI Ho) as [Hm Hc].
+    + congruence.
+    + intros s0 Hh; exfalso; eapply head_none; eauto.
+  - (* ETaskBegin *)
+    inv_step HS; eapply inv_set_trx; eauto; trxc HI E.
+  - (* ETaskEnd *)
+    inv_step HS;
+      match goal with H : task_end true _ _ _ = Some _ |- _ => apply task_end_fixed in H; destruct H as [Hst [-> ->]] end;
+      eapply inv_set_trx; eauto; destruct Hst as [Hst|Hst]; trxc HI E.
+  - (* EPumpEnd *)
+    inv_step HS; try (eapply inv_set_tp; eauto; tpc).
+    match goal with |- inv ?g => change g with
+      (map_trx (set_tp c t (mkTp DClosed PDone (d_ref t0) (i_state t0) (i_mon t0) (i_starting t0) (i_cclosed t0) (i_consent t0) (i_candend t0)))
+               (fun x => if Nat.eqb (t_tp x) t then with_r x (stop_decoder (t_r x)) else x)) end.
+    apply inv_map_trx; [eapply inv_set_tp; eauto; tpc|].
+    cbn [c_trx set_tp]. intros i x En. pose proof (proj1 HI _ _ En) as Hok.
+    destruct (t_tp x =? t); [apply trx_compat_stopdec|apply trx_compat_refl]; auto.
+  - (* EMonEnd *) inv_step HS; eapply inv_set_tp; eauto; destruct (i_state t0) eqn:Es; tpc.
+  - (* ERemoteBye *) inv_step HS. eapply inv_set_trx; eauto. apply trx_compat_stopdec. exact (proj1 HI _ _ E).
+  - (* EIceLost *) inv_step HS; eapply inv_set_tp; eauto; tpc.
+  - (* ENegoSig *)
+    inv_step HS. cbn in E. destruct (open_main _ HI E) as [Hm Hc].
+    destruct HI as (HA & HB & HC & HD & HE).
+    split; [exact HA|split; [exact HB|split; [exact HC|split; [exact HD|]]]].
+    intros Hcl. cbn in Hcl. congruence.
+  - (* EChanNew *)
+    inv_step HS. eapply inv_set_sctp; eauto.
+    + intros Hcl (Q1 & Q2 & Q3). apply orb_prop in E0. unfold is_open in E0. destruct (c_closed c); try congruence;
+        destruct E0 as [E0|E0]; try discriminate; rewrite Q1 in E0; discriminate.
+    + intros s0 Hh. destruct s0; cbn [sctp_pc]; auto. intros (Q1 & Q2 & Q3).
+      apply orb_prop in E0. destruct E0 as [E0|E0].
+      * destruct (open_main _ HI E0) as [Hm _]. exfalso. eapply head_none; eauto.
+      * rewrite Q1 in E0. discriminate.
+  - (* ESctpDown *)
+    inv_step HS. eapply inv_set_sctp; eauto.
+    + intros _ _. unfold scquiet; cbn; auto.
+    + intros s0 Hh. destruct s0; cbn [sctp_pc]; auto. intros _. unfold scquiet; cbn; auto.
+  - (* ECandEnd *) inv_step HS; eapply inv_set_tp; eauto; tpc.
+  - (* ECloseCall *)
+    inv_step HS.
+    + (* first caller *)
+      destruct HI as (HA & HB & HC & HD & HE).
+      assert (Hm : c_main c = None). { unfold fut_ok in HB. destruct (c_main c); [congruence|reflexivity]. }
+      split; [exact HA|split; [reflexivity|split; [|split]]].
+      * unfold main_ok. cbn [c_main]. pose proof (plan_valid c HW) as Hv.
+        destruct (plan c) as [|o todo] eqn:Ep; [reflexivity|].
+        inversion Hv; subst. split; [|assumption]. split; [assumption|].
+        destruct o; cbn; auto.
+      * intros t tp Hn Hcl. destruct (HD t tp Hn Hcl) as [Hce Hor]. split; [exact Hce|].
+        right. destruct Hor as [Hh|(H1 & H2 & [H3|Hh])]; try (exfalso; eapply head_none; eauto; fail).
+        repeat split; auto.
+      * intros _. split; [reflexivity|]. intros o Ho. left. exact Ho.
+    + rewrite <- E. destruct HI as (HA & HB & HC & HD & HE). split; [exact HA|split; [exact HB|split; [exact HC|split; [exact HD|exact HE]]]].
+    + rewrite <- E. destruct HI as (HA & HB & HC & HD & HE). split; [exact HA|split; [exact HB|split; [exact HC|split; [exact HD|exact HE]]]].
+  - (* ECloseRet *)
+    destruct (c_main c) as [[[id' todo] s]|] eqn:Em.
+    + destruct todo as [|o todo].
+      * destruct s;
+          try (destruct (c_closed c) eqn:Ec; try discriminate; inv_step HS;
+               destruct HI as (HA & HB & HC & HD & HE); unfold fut_ok in HB; rewrite Em in HB; congruence).
+        inv_step HS. destruct HI as (HA & HB & HC & HD & HE).
+        assert (Hcl : c_closed c = FPending). { unfold fut_ok in HB. rewrite Em in HB. exact HB. }
+        assert (Hh : head c = None). { unfold head. rewrite Em. reflexivity. }
+        split; [exact HA|split; [cbn; discriminate|split; [exact I|split]]].
+        -- intros t tp Hn Hc. destruct (HD t tp Hn Hc) as [Hce Hor]. split; [exact Hce|]. right.
+           destruct Hor as [Hx|(H1 & H2 & [H3|Hx])]; try congruence. repeat split; auto.
+        -- intros _. destruct HE as [Hs Hp]; [congruence|]. split; [exact Hs|].
+           intros o Ho. right. destruct (Hp o Ho) as [Hin|Hpo]; [|exact Hpo].
+           unfold todo_of in Hin. rewrite Em in Hin. destruct Hin.
+      * destruct (c_closed c) eqn:Ec; try discriminate; inv_step HS;
+          destruct HI as (HA & HB & HC & HD & HE); unfold fut_ok in HB; rewrite Em in HB; congruence.
+    + destruct (c_closed c) eqn:Ec; try discriminate. inv_step HS.
+      rewrite <- Ec, <- Em. destruct HI as (HA & HB & HC & HD & HE).
+      split; [exact HA|split; [exact HB|split; [exact HC|split; [exact HD|exact HE]]]].
+  - (* EStopCall *)
+    destruct (head c) as [[o' s]|] eqn:Eh; [|discriminate]. destruct s; try discriminate.
+    destruct (op_eqb o o') eqn:Eo; [|discriminate]. apply op_eqb_eq in Eo; subst o'.
+    apply head_main in Eh. destruct Eh as (id & todo & Em).
+    unfold stop_call in HS. destruct o; inv_step HS.
+    + (* receiver, started *)
+      assert (H1 : inv (set_trx c i (with_r t (stop_decoder (t_r t))))).
+      { eapply inv_set_trx; eauto. apply trx_compat_stopdec. exact (proj1 HI _ _ E). }
+      apply (inv_set_sub_other _ id (ORecvStop i) todo SIdle _ H1 Em); [intros t0; discriminate|].
+      cbn [pc_clause c_trx set_trx]. intros x0. rewrite nth_error_upd_same with (y := t) by exact E.
+      intros H; injection H as <-. destruct (proj1 HI _ _ E) as (_ & _ & _ & _ & _ & _ & G1).
+      unfold with_r, stop_decoder. cbn. destruct (r_dec (t_r t)) eqn:Ed; cbn; auto.
+    + (* receiver, never started *)
+      match goal with |- inv (set_sub ?c1 _) => assert (H1 : inv c1) end.
+      { eapply inv_set_trx; eauto. trxc HI E; apply orb_true_r. }
+      apply (inv_set_sub_other _ id (ORecvStop i) todo SIdle _ H1 Em); [intros t0; discriminate|].
+      cbn [pc_clause c_trx set_trx]. intros x0. rewrite nth_error_upd_same with (y := t) by exact E.
+      intros H; injection H as <-. cbn. split; [reflexivity|apply orb_true_r].
+    + (* sender *)
+      apply (inv_set_sub_other _ id (OSendStop i) todo SIdle _ HI Em); [intros t0; discriminate|].
+      cbn [pc_clause]. intros x0 Hx. rewrite E in Hx. injection Hx as <-.
+      destruct (s_started (t_s t)) eqn:Es; cbn; auto.
+    + (* sctp *)
+      match goal with |- inv (set_sub ?c1 _) => assert (H1 : inv c1) end.
+      { eapply inv_set_sctp; eauto.
+        - intros _ _. unfold scquiet; cbn; repeat split; reflexivity.
+        - intros s1 Hh. destruct s1; cbn [sctp_pc]; auto. intros _. unfold scquiet; cbn; repeat split; reflexivity. }
+      apply (inv_set_sub_other _ id OSctpStop todo SIdle _ H1 Em); [intros t0; discriminate|].
+      cbn [pc_clause c_sctp set_sctp]. intros sc H; injection H as <-. unfold scquiet; cbn; repeat split; reflexivity.
+    + (* dtls *)
+      apply (inv_set_sub_other _ id (ODtlsStop t) todo SIdle _ HI Em); [intros t1; discriminate|].
+      cbn [pc_clause]. destruct (d_ref t0); cbn; auto.
+    + (* ice, not closed yet: four states *) rewrite orb_true_r. eapply inv_ice_stop_call; eauto. congruence.
+    + rewrite orb_true_r. eapply inv_ice_stop_call; eauto. congruence.
+    + rewrite orb_true_r. eapply inv_ice_stop_call; eauto. congruence.
+    + rewrite orb_true_r. eapply inv_ice_stop_call; eauto. congruence.
+    + (* ice, already closed *)
+      eapply inv_set_sub; eauto.
+      * cbn [pc_clause]. intros tp0 Hx. rewrite E in Hx. injection Hx as <-. exact E0.
+      * intros t1 tp1 Hn1. eapply closed_ok_idle; eauto. destruct HI as (_ & _ & _ & HD & _). auto.
+  - (* EStopRet *)
+    destruct (head c) as [[o' s]|] eqn:Eh; [|discriminate].
+    destruct (op_eqb o o' && stop_ret c o s) eqn:Eo; [|discriminate].
+    apply andb_prop in Eo. destruct Eo as [Eo Er]. apply op_eqb_eq in Eo; subst o'.
+    apply head_main in Eh. destruct Eh as (id & todo & Em).
+    unfold pop_main in HS. rewrite Em in HS. injection HS as <-. eapply inv_pop; eauto.
+  - (* ECancel *)
+    unfold do_cancel in HS. inv_step HS.
+    all: match goal with H : head _ = Some _ |- _ => apply head_main in H; destruct H as (id & todo & Em) end.
+    all: match goal with H : Nat.eqb _ _ = true |- _ => apply Nat.eqb_eq in H; subst end.
+    all: assert (Hpc : pc_ok c (match todo_of c with o :: _ => o | [] => OSctpStop end)
+                             (match c_main c with Some (_, _, s) => s | None => SIdle end))
+           by (destruct HI as (_ & _ & HC & _); unfold main_ok in HC; unfold todo_of; rewrite Em in *; exact (proj1 HC));
+         unfold todo_of in Hpc; rewrite Em in Hpc; destruct Hpc as [_ Hpc]; cbn in Hpc.
+    + (* receiver rtcp *)
+      specialize (Hpc _ E5). destruct Hpc as (P1 & P2 & P3).
+      match goal with |- inv (set_sub ?c1 _) => assert (H1 : inv c1) end.
+      { eapply inv_set_trx; eauto. destruct (r_rtcp (t_r t)) eqn:Er; try discriminate E6; trxc HI E5. }
+      apply (inv_set_sub_other _ id (ORecvStop i0) todo SWaitStarted _ H1 Em); [intros t0; discriminate|].
+      cbn [pc_clause c_trx set_trx]. intros x0. rewrite nth_error_upd_same with (y := t) by exact E5.
+      intros H; injection H as <-. pose proof (proj1 HI _ _ E5) as (_ & _ & _ & _ & _ & F3 & _).
+      cbn. unfold cancelled. destruct (r_rtcp (t_r t)); try discriminate E6; cbn; auto. congruence.
+    + (* sender rtp *)
+      specialize (Hpc _ E5).
+      match goal with |- inv (set_sub ?c1 _) => assert (H1 : inv c1) end.
+      { eapply inv_set_trx; eauto. destruct (s_rtp (t_s t)) eqn:Er; try discriminate E6; trxc HI E5. }
+      apply (inv_set_sub_other _ id (OSendStop i0) todo SWaitStarted _ H1 Em); [intros t0; discriminate|].
+      cbn [pc_clause c_trx set_trx]. intros x0. rewrite nth_error_upd_same with (y := t) by exact E5.
+      intros H; injection H as <-. pose proof (proj1 HI _ _ E5) as (_ & _ & _ & F1 & _).
+      apply andb_prop in E6. destruct E6 as [E6 E7].
+      cbn. unfold cancelled. split; [|exact E7]. destruct (s_rtp (t_s t)); try discriminate E6; cbn; auto. congruence.
+    + (* sender rtcp *)
+      specialize (Hpc _ E5). destruct Hpc as (P1 & P2).
+      match goal with |- inv (set_sub ?c1 _) => assert (H1 : inv c1) end.
+      { eapply inv_set_trx; eauto. destruct (s_rtcp (t_s t)) eqn:Er; try discriminate P2; trxc HI E5. }
+      apply (inv_set_sub_other _ id (OSendStop i0) todo SCancel1 _ H1 Em); [intros t0; discriminate|].
+      cbn [pc_clause c_trx set_trx]. intros x0. rewrite nth_error_upd_same with (y := t) by exact E5.
+      intros H; injection H as <-. pose proof (proj1 HI _ _ E5) as (_ & _ & _ & _ & F2 & _).
+      cbn. unfold cancelled in *. split; [exact P1|]. destruct (s_rtcp (t_s t)); try discriminate P2; cbn; auto. congruence.
+    + (* dtls pump *)
+      match goal with |- inv (set_sub ?c1 _) => assert (H1 : inv c1) end.
+      { eapply inv_set_tp; eauto. tpc. }
+      apply (inv_set_sub_other _ id (ODtlsStop t) todo SNeedCancel _ H1 Em); [intros t1; discriminate|].
+      exact I.
+  - (* EIceConnClosed *)
+    destruct (head c) as [[o s]|] eqn:Eh; [|discriminate]. destruct o; try discriminate. destruct s; try discriminate.
+    destruct (Nat.eqb_spec t t0) as [->|]; [|discriminate].
+    destruct (nth_error (c_tps c) t0) as [tp|] eqn:En; [|discriminate]. injection HS as <-.
+    apply head_main in Eh. destruct Eh as (id & todo & Em). eapply inv_ice_conn_closed; eauto.
+Qed.
